@@ -21,8 +21,17 @@ def units():
     U.fn("ts_assign", assigns=["$0->value.v", "verif_atomic_ops"], ensures={"assigned_carries_its_sources_value": "$0->value.v == OLD($1->value.v)", "returns_self": "RET == $0"})
     U.fn("ts_value", assigns=["verif_atomic_ops"], ensures={"conversion_reads_the_value": "RET == $0->value.v"})
     # ---- notification protocol; state invariant I: every stamp < global
-    obs_state = "  global.v = nondet_unsigned_long(); o_@0.observers.b = 0; o_@0.observers.n = 0; o_@0.observers.cap = 0;\n"
-    U.fn("obs_notify", pre_call=obs_state, requires=pre + ["$0->lastNotified.value.v < %s" % GL], assigns=["$0->lastNotified.value.v", GL, "verif_atomic_ops"], ensures={
+    # the observable has up to 3 registered observers in arbitrary polling states (notifyObservers must not depend on them)
+    obs_state = """
+  global.v = nondet_unsigned_long();
+  Observer the_o0, the_o1, the_o2; the_o0.lastObserved.value.v = nondet_unsigned_long(); the_o1.lastObserved.value.v = nondet_unsigned_long(); the_o2.lastObserved.value.v = nondet_unsigned_long();
+  the_o0.observee = &o_@0; the_o1.observee = &o_@0; the_o2.observee = &o_@0;
+  unsigned long in_nobs = nondet_unsigned_long(); __CPROVER_assume(in_nobs <= 3);
+  o_@0.observers.b = in_nobs ? (Observer **)verif_malloc(3 * sizeof(Observer *)) : (Observer **)0; o_@0.observers.n = in_nobs; o_@0.observers.cap = in_nobs ? 3 : 0;
+  if (in_nobs) { o_@0.observers.b[0] = &the_o0; o_@0.observers.b[1] = &the_o1; o_@0.observers.b[2] = &the_o2; }
+"""
+    OBSV = "$0->observers.n <= 3 && ($0->observers.n == 0 || (__CPROVER_r_ok($0->observers.b, 3 * sizeof(Observer *)) && __CPROVER_r_ok($0->observers.b[0], sizeof(Observer)) && __CPROVER_r_ok($0->observers.b[1], sizeof(Observer)) && __CPROVER_r_ok($0->observers.b[2], sizeof(Observer))))"
+    U.fn("obs_notify", pre_call=obs_state, requires=pre + ["$0->lastNotified.value.v < %s" % GL, OBSV], assigns=["$0->lastNotified.value.v", GL, "verif_atomic_ops"], ensures={
         "notification_stamp_is_newer_than_every_stamp_issued_before": "$0->lastNotified.value.v >= OLD(%s) && $0->lastNotified.value.v < %s" % (GL, GL),
         "exactly_one_value_is_consumed": "%s == OLD(%s) + 1" % (GL, GL)})
     obr_state = """
